@@ -980,6 +980,12 @@ def statistical_supplement(ctx):
             R = [[1.0 if i == j else 0.0 for j in range(k)] for i in range(k)]
             if k >= 2 and rng.random() < 0.8:
                 R = random_pd(rng, k) if k == 3 else [[1.0, 0.0], [0.0, 1.0]]
+                if k == 3 and rng.random() < 0.4:
+                    # correlations that cancel in sum (seeded change C02-1), positive definite
+                    while True:
+                        R, pd = cancelling3(rng)
+                        if pd:
+                            break
                 if k == 2:
                     r = round(rng.uniform(-0.9, 0.9), 3)
                     R = [[1.0, r], [r, 1.0]]
